@@ -10,10 +10,12 @@ The spec predicates (`admissible`, `constraintsUnmet`, `checkStep`, …) live in
 -/
 import Pko.Model.Deploy
 import Pko.Model.DeploySpec
+import Pko.Model.DeployRetry
 import Pko.Lemmas.C16Deploy
+import Pko.Lemmas.C16Retry
 
 namespace Pko.Props.C16
-open Pko.Model.Deploy Pko.Model.DeploySpec Pko.Lemmas.C16
+open Pko.Model.Deploy Pko.Model.DeploySpec Pko.Model.DeployRetry Pko.Lemmas.C16
 
 set_option linter.unusedSectionVars false
 variable {H T : Type} [DecidableEq H] [DecidableEq T]
@@ -49,14 +51,55 @@ ObjectDeployment, written by an Update, no Invalid condition and no error. -/
 theorem deploy_admissible_rolls_out (t : T) (L : Leaves) (inv : Inv) (od : OD T) (h : admissible L = true) :
     deploy t L .none inv od =
       ⟨false, .none, some (some t), (match od with | none => [.create, .update] | some _ => [.update]), true⟩ := by
-  rw [deploy_of_admissible t L .none inv od h]
-  cases od <;> simp [reconcile]
+  rw [deploy_of_admissible t L .none inv od h, reconcile_none]
+  cases od <;> simp
+
+/-- **Deploy returns nil on an admissible package only with the fresh render stored** — for every
+prior ObjectDeployment and under EVERY API fault or third-party interleaving (any number of 409
+Conflict answers to the Update): the template is the freshly rendered one, it was written by an
+Update of this call, and the Invalid condition is gone.  (This is the clause the unpack reconciler
+relies on when it records the spec hash after a nil return.) -/
+theorem deploy_nil_template_fresh (t : T) (L : Leaves) (f : RFault) (inv : Inv) (od : OD T)
+    (ha : admissible L = true) (he : (deploy t L f inv od).err = false) :
+    (deploy t L f inv od).od = some (some t) ∧ Write.update ∈ (deploy t L f inv od).writes ∧
+      (deploy t L f inv od).inv = .none := by
+  rw [deploy_of_admissible t L f inv od ha] at he ⊢
+  cases hr : (reconcile od t f).2.2 with
+  | true => simp [hr] at he
+  | false =>
+    obtain ⟨h1, h2⟩ := reconcile_ok od t f hr
+    simp [h1, h2]
+
+/-- **Conflicts below the retry budget are invisible in the result**: for ANY number `n <
+retrySteps` of Updates answered 409 Conflict, `Deploy` of an admissible package ends exactly like
+the undisturbed call — no error, fresh template, Invalid cleared — after `n` refused Updates. -/
+theorem deploy_conflicts_below_budget (t : T) (L : Leaves) (inv : Inv) (od : OD T) (n : Nat)
+    (ha : admissible L = true) (hn : n < retrySteps) :
+    deploy t L (.conflict n) inv od =
+      ⟨false, .none, some (some t),
+       (match od with | none => [.create] | some _ => []) ++ List.replicate n .updateConflict ++ [.update], true⟩ := by
+  rw [deploy_of_admissible t L _ inv od ha, reconcile_conflict_lt od t n hn]
+  cases od <;> simp
+
+/-- **Conflicts beyond the retry budget**: for ANY `n ≥ retrySteps` `Deploy` returns an error
+(so nothing is recorded and the pass is retried), the Invalid condition is left as it was and the
+template of an existing ObjectDeployment is not changed. -/
+theorem deploy_conflicts_beyond_budget (t : T) (L : Leaves) (inv : Inv) (od : OD T) (n : Nat)
+    (ha : admissible L = true) (hn : retrySteps ≤ n) :
+    (deploy t L (.conflict n) inv od).err = true ∧ (deploy t L (.conflict n) inv od).inv = inv ∧
+      (deploy t L (.conflict n) inv od).od = (match od with | none => some none | some _ => od) := by
+  rw [deploy_of_admissible t L _ inv od ha, reconcile_conflict_ge od t n hn]
+  cases od <;> simp
+
+theorem clause_nil (b : Bool) (n : String) : clause b n = [] ↔ b = false := by
+  cases b <;> simp [clause]
 
 /-- **Monitor vs. model (deploy stream)**: the model of `Deploy` satisfies every clause the
 monitor evaluates on implementation traces. -/
 theorem checkDeploy_model (t : T) (L : Leaves) (f : RFault) (inv : Inv) (od : OD T) :
     checkDeploy t L f od (dobsOf (deploy t L f inv od)) = [] := by
-  unfold checkDeploy clause dobsOf
+  unfold checkDeploy dobsOf
+  simp only [List.append_eq_nil_iff, clause_nil]
   cases ha : admissible L with
   | false =>
     obtain ⟨h1, h2, h3⟩ := deploy_of_not_admissible t L f inv od ha
@@ -74,8 +117,288 @@ theorem checkDeploy_model (t : T) (L : Leaves) (f : RFault) (inv : Inv) (od : OD
       cases hu : constraintsUnmet L with
       | false => rfl
       | true => rw [(checkConstraints_unmet_iff L).mpr hu] at hm; cases hm
-    cases f <;> simp [hl, hu, deploy_of_admissible t L _ inv od ha]
-    cases od <;> simp [reconcile]
+    cases he : (deploy t L f inv od).err with
+    | false =>
+      obtain ⟨h1, h2, h3⟩ := deploy_nil_template_fresh t L f inv od ha he
+      simp [hl, hu, h1, h2, h3]
+    | true =>
+      simp only [hl, hu]
+      refine ⟨⟨⟨⟨⟨by simp, by simp⟩, by simp⟩, ?_⟩, by simp⟩, ?_⟩
+      · -- valid-not-rolled-out: no error without a fault
+        cases f <;> simp
+        rw [deploy_admissible_rolls_out t L inv od ha] at he
+        cases he
+      · -- conflict-below-budget-not-retried
+        cases f with
+        | conflict n =>
+          by_cases hn : n < retrySteps
+          · rw [deploy_conflicts_below_budget t L inv od n ha hn] at he; cases he
+          · simp [RFault.conflicts, hn]
+        | _ => simp [RFault.conflicts]
+
+/-! ## The conflict-retry loop on the refined state (resourceVersion, metadata, third parties) -/
+
+/-- **The retry loop, any budget, any interleaving, any number of conflicts**: started in sync
+with the API (as after the Get or the Create), `retry.RetryOnConflict` around the Update either
+ends without error — then some attempt below the budget was accepted after only Conflict answers,
+and the stored object is the closure body (merge annotations, change cause, merge labels, SET THE
+TEMPLATE) applied to the LATEST stored object including every third-party write before it — or
+with an error after the whole budget was refused, the stored object carrying only third-party
+writes. -/
+theorem retry_loop_any_budget_any_interleaving (t : T) (aliased : Bool) (desired : Obj T) (steps : Nat)
+    (ws : List (List String)) (s : Obj T) :
+    ((retryLoop t aliased desired steps ws s s).err = false →
+      ∃ j, j < steps ∧
+        (retryLoop t aliased desired steps ws s s).writes = List.replicate j .updateConflict ++ [.update] ∧
+        (retryLoop t aliased desired steps ws s s).srv = storedFrom t aliased desired (afterGaps s (ws.take (j + 1)))) ∧
+    ((retryLoop t aliased desired steps ws s s).err = true →
+      (retryLoop t aliased desired steps ws s s).writes = List.replicate steps .updateConflict ∧
+        (retryLoop t aliased desired steps ws s s).srv = afterGaps s (ws.take steps)) :=
+  retryLoop_spec t aliased desired steps ws s
+
+/-- … hence: no error ⇒ stored template = the fresh render; error ⇒ stored template untouched. -/
+theorem retry_loop_template (t : T) (aliased : Bool) (desired : Obj T) (steps : Nat)
+    (ws : List (List String)) (s : Obj T) :
+    (retryLoop t aliased desired steps ws s s).srv.tpl =
+      if (retryLoop t aliased desired steps ws s s).err then s.tpl else some t := by
+  cases h : (retryLoop t aliased desired steps ws s s).err with
+  | true => simp [retryLoop_err_template t aliased desired steps ws s h]
+  | false => simp [retryLoop_ok_template t aliased desired steps ws s h]
+
+theorem retry_abs (t : T) (al : Bool) (d s : Obj T) (key : Nat → String) (f : RFault) :
+    some (retryLoop t al d retrySteps (gapsOf key f) s s).srv.tpl = (updateLoop (some s.tpl) t f.conflicts).1 ∧
+    (retryLoop t al d retrySteps (gapsOf key f) s s).writes = (updateLoop (some s.tpl) t f.conflicts).2.1 ∧
+    (retryLoop t al d retrySteps (gapsOf key f) s s).err = (updateLoop (some s.tpl) t f.conflicts).2.2 := by
+  rw [gapsOf_eq, retryLoop_conflicts]
+  simp only [List.length_map, List.length_range, updateLoop]
+  by_cases h : f.conflicts < retrySteps
+  · simp [h, storedFrom_tpl]
+  · simp [h, tpWrites_tpl]
+
+/-- **Refinement**: forgetting resourceVersions and metadata, the refined model of
+`DeploymentReconciler.Reconcile` (explicit retry loop against an API with optimistic locking and
+third-party writers) IS the coarse `reconcile` the Package-controller model and all theorems above
+are built on — same template afterwards, same write requests, same error. -/
+theorem reconcileObj_refines (t : T) (desired : Obj T) (srv : Option (Obj T)) (f : RFault) (key : Nat → String) :
+    absOD (reconcileObj t desired srv f key).srv = (reconcile (absOD srv) t f).1 ∧
+    (reconcileObj t desired srv f key).writes = (reconcile (absOD srv) t f).2.1 ∧
+    (reconcileObj t desired srv f key).err = (reconcile (absOD srv) t f).2.2 := by
+  unfold reconcileObj reconcile
+  by_cases h1 : f = .get
+  · simp [h1]
+  · simp only [h1, if_false]
+    cases srv with
+    | none =>
+      simp only [absOD, Option.map_none]
+      by_cases h2 : f = .create
+      · simp [h2]
+      · by_cases h3 : f = .update
+        · simp [h3]
+        · simp only [h2, h3, if_false]
+          obtain ⟨a, b, c⟩ := retry_abs t true { desired with tpl := none, rv := 1 }
+            { desired with tpl := none, rv := 1 } key f
+          simp only [Option.map_some]
+          exact ⟨a, by rw [b], by rw [c]⟩
+    | some s =>
+      simp only [absOD, Option.map_some]
+      by_cases h3 : f = .update
+      · simp [h3]
+      · simp only [h3, if_false]
+        obtain ⟨a, b, c⟩ := retry_abs t false desired s key f
+        exact ⟨a, b, by rw [c]⟩
+
+/-- `deployObj` and `deploy` agree on the template that is stored. -/
+theorem deployObj_consistent (t : T) (desired : Obj T) (L : Leaves) (f : RFault) (inv : Inv)
+    (srv : Option (Obj T)) (key : Nat → String) :
+    absOD (deployObj t desired L f inv srv key).2 = (deployObj t desired L f inv srv key).1.od := by
+  cases hr : (deploy t L f inv (absOD srv)).reconciled with
+  | false => simp [deployObj, hr, (deploy_not_reconciled t L f inv (absOD srv) hr).1]
+  | true =>
+    have ha := (deploy_reconciled_iff t L f inv (absOD srv)).mp hr
+    simp only [deployObj, hr, if_true]
+    rw [(reconcileObj_refines t desired srv f key).1, deploy_of_admissible t L f inv (absOD srv) ha]
+    split <;> rfl
+
+/-- What `Deploy` leaves stored when it returns nil on an admissible package: the number of
+conflicts was below the budget and the object is the closure body applied to the latest stored
+object (the one found, or the one pre-created in this call) with all third-party writes. -/
+theorem deployObj_nil_stored (t : T) (desired : Obj T) (L : Leaves) (f : RFault) (inv : Inv)
+    (srv : Option (Obj T)) (key : Nat → String) (ha : admissible L = true)
+    (he : (deployObj t desired L f inv srv key).1.err = false) :
+    f.conflicts < retrySteps ∧
+    (deployObj t desired L f inv srv key).2 = some (match srv with
+      | none => storedFrom t true { desired with tpl := none, rv := 1 }
+          (tpWrites { desired with tpl := none, rv := 1 } ((List.range f.conflicts).map key))
+      | some s => storedFrom t false desired (tpWrites s ((List.range f.conflicts).map key))) := by
+  unfold deployObj at he ⊢
+  have hr := (deploy_reconciled_iff t L f inv (absOD srv)).mpr ha
+  simp only [hr, if_true]
+  rw [deploy_of_admissible t L f inv (absOD srv) ha] at he
+  have he' : (reconcile (absOD srv) t f).2.2 = false := by
+    cases h : (reconcile (absOD srv) t f).2.2 with
+    | false => rfl
+    | true => simp [h] at he
+  rw [← (reconcileObj_refines t desired srv f key).2.2] at he'
+  revert he'
+  unfold reconcileObj
+  by_cases h1 : f = .get
+  · simp [h1]
+  · simp only [h1, if_false]
+    cases srv with
+    | none =>
+      by_cases h2 : f = .create
+      · simp [h2]
+      · by_cases h3 : f = .update
+        · simp [h3]
+        · simp only [h2, h3, if_false, gapsOf_eq, retryLoop_conflicts, List.length_map, List.length_range]
+          by_cases hn : f.conflicts < retrySteps
+          · simp [hn]
+          · simp [hn]
+    | some s =>
+      by_cases h3 : f = .update
+      · simp [h3]
+      · simp only [h3, if_false, gapsOf_eq, retryLoop_conflicts, List.length_map, List.length_range]
+        by_cases hn : f.conflicts < retrySteps
+        · simp [hn]
+        · simp [hn]
+
+def mobsOf (s : Option (Obj T)) : MObs :=
+  match s with
+  | none => ⟨[], []⟩
+  | some o => ⟨o.ann, o.lab⟩
+
+theorem mem_lookup_isSome (l : KV) (kv : String × String) (h : kv ∈ l) : (l.lookup kv.1).isSome = true := by
+  rw [List.lookup_isSome_iff]; exact ⟨kv, h, by simp⟩
+
+/-- The metadata clauses of the monitor follow from five pointwise facts about lookups. -/
+theorem checkMeta_of_facts (L : Leaves) (dAnn dLab : KV) (landed : List String) (pre : MObs) (o : DObs T) (m : MObs)
+    (hok : admissible L = true → o.err = false →
+      (∀ kv ∈ dAnn, kv.1 ≠ "cc" → m.ann.lookup kv.1 = dAnn.lookup kv.1) ∧
+      (∀ kv ∈ dLab, m.lab.lookup kv.1 = dLab.lookup kv.1) ∧
+      (∀ k ∈ landed, m.ann.lookup k = some "x" ∧ m.lab.lookup k = some "x") ∧
+      (∀ k, k ≠ "cc" → dAnn.lookup k = none → k ∉ landed → m.ann.lookup k = pre.ann.lookup k) ∧
+      (∀ k, dLab.lookup k = none → k ∉ landed → m.lab.lookup k = pre.lab.lookup k)) :
+    checkMeta L dAnn dLab landed pre o m = [] := by
+  unfold checkMeta
+  simp only [List.append_eq_nil_iff, clause_nil]
+  cases ha : admissible L with
+  | false => simp
+  | true =>
+    cases he : o.err with
+    | true => simp
+    | false =>
+      obtain ⟨hA, hB, hC, hD, hE⟩ := hok ha he
+      simp only [Bool.not_false, Bool.and_true, Bool.true_and]
+      refine ⟨⟨⟨?_, ?_⟩, ?_⟩, ?_⟩
+      · rw [List.any_eq_false]
+        intro kv hkv
+        by_cases hk : kv.1 = "cc"
+        · simp [hk]
+        · simp [hA kv hkv hk]
+      · rw [List.any_eq_false]
+        intro kv hkv
+        simp [hB kv hkv]
+      · rw [List.any_eq_false]
+        intro k hk
+        simp [(hC k hk).1, (hC k hk).2]
+      · rw [Bool.or_eq_false_iff, List.any_eq_false, List.any_eq_false]
+        constructor
+        · intro kv _
+          by_cases hk : kv.1 = "cc"
+          · simp [hk]
+          · cases hd : dAnn.lookup kv.1 with
+            | some v => simp
+            | none =>
+              by_cases hl : kv.1 ∈ landed
+              · simp [hl]
+              · simp [hD kv.1 hk hd hl]
+        · intro kv _
+          cases hd : dLab.lookup kv.1 with
+          | some v => simp
+          | none =>
+            by_cases hl : kv.1 ∈ landed
+            · simp [hl]
+            · simp [hE kv.1 hd hl]
+
+/-- **Monitor vs. model (metadata clauses, deploy stream)**: when the third-party keys are
+foreign to the package (not the change cause, not a key of the desired annotations / labels),
+`Deploy` on the refined state satisfies "annotations / labels are the merge": desired entries
+present, every third-party entry that landed kept, prior foreign entries kept. -/
+theorem checkMeta_model (t : T) (desired : Obj T) (L : Leaves) (f : RFault) (inv : Inv)
+    (srv : Option (Obj T)) (key : Nat → String)
+    (hcc : ∀ i, key i ≠ kCause)
+    (hfa : ∀ i, desired.ann.lookup (key i) = none) (hfl : ∀ i, desired.lab.lookup (key i) = none) :
+    checkMeta L desired.ann desired.lab ((List.range f.conflicts).map key) (mobsOf srv)
+      (dobsOf (deployObj t desired L f inv srv key).1) (mobsOf (deployObj t desired L f inv srv key).2) = [] := by
+  apply checkMeta_of_facts
+  intro ha he
+  have he' : (deployObj t desired L f inv srv key).1.err = false := he
+  have hks : ∀ k, k ∈ (List.range f.conflicts).map key → k ≠ kCause ∧ desired.ann.lookup k = none ∧
+      desired.lab.lookup k = none := by
+    intro k hk
+    obtain ⟨i, _, rfl⟩ := List.mem_map.mp hk
+    exact ⟨hcc i, hfa i, hfl i⟩
+  cases srv with
+  | some s =>
+    obtain ⟨_, hs⟩ := deployObj_nil_stored t desired L f inv (some s) key ha he'
+    simp only at hs
+    simp only [hs, mobsOf]
+    refine ⟨?_, ?_, ?_, ?_, ?_⟩
+    · intro kv hkv hk
+      have hsome := mem_lookup_isSome _ kv hkv
+      rw [stored_ann_existing _ _ _ _ _ hk]
+      cases hd : List.lookup kv.1 desired.ann with
+      | none => rw [hd] at hsome; cases hsome
+      | some v => simp
+    · intro kv hkv
+      have hsome := mem_lookup_isSome _ kv hkv
+      rw [stored_lab_existing]
+      cases hd : List.lookup kv.1 desired.lab with
+      | none => rw [hd] at hsome; cases hsome
+      | some v => simp
+    · intro k hk
+      obtain ⟨h1, h2, h3⟩ := hks k hk
+      rw [stored_ann_existing _ _ _ _ _ h1, stored_lab_existing, tps_lookup]
+      simp [h2, h3, hk]
+    · intro k hk hd hl
+      rw [stored_ann_existing _ _ _ _ _ hk, tps_lookup]
+      simp [hd, hl]
+    · intro k hd hl
+      rw [stored_lab_existing, tps_lookup]
+      simp [hd, hl]
+  | none =>
+    obtain ⟨_, hs⟩ := deployObj_nil_stored t desired L f inv none key ha he'
+    simp only at hs
+    simp only [hs, mobsOf]
+    refine ⟨?_, ?_, ?_, ?_, ?_⟩
+    · intro kv hkv hk
+      have hsome := mem_lookup_isSome _ kv hkv
+      have hnot : kv.1 ∉ (List.range f.conflicts).map key := by
+        intro hm
+        rw [(hks _ hm).2.1] at hsome; cases hsome
+      rw [stored_ann_created t _ _ rfl _ _ hk, tps_lookup]
+      cases hd : List.lookup kv.1 desired.ann with
+      | none => rw [hd] at hsome; cases hsome
+      | some v => simp [hnot]
+    · intro kv hkv
+      have hsome := mem_lookup_isSome _ kv hkv
+      have hnot : kv.1 ∉ (List.range f.conflicts).map key := by
+        intro hm
+        rw [(hks _ hm).2.2] at hsome; cases hsome
+      rw [stored_lab_created t _ _ rfl, tps_lookup]
+      cases hd : List.lookup kv.1 desired.lab with
+      | none => rw [hd] at hsome; cases hsome
+      | some v => simp [hnot]
+    · intro k hk
+      obtain ⟨h1, h2, h3⟩ := hks k hk
+      rw [stored_ann_created t _ _ rfl _ _ h1, stored_lab_created t _ _ rfl, tps_lookup]
+      simp [hk]
+    · intro k hk hd hl
+      rw [stored_ann_created t _ _ rfl _ _ hk, tps_lookup]
+      simp [hd, hl]
+    · intro k hd hl
+      rw [stored_lab_created t _ _ rfl, tps_lookup]
+      simp [hd, hl]
 
 /-! ## One reconcile pass of the Package controller -/
 
@@ -346,7 +669,9 @@ def FreshInv (W : Spec → Leaves) (st : Store H T) : Prop :=
 theorem reconcile_cases (od : OD T) (t : T) (f : RFault) (hf : f ≠ .late) :
     ((reconcile od t f).2.2 = false ∧ (reconcile od t f).1 = some (some t)) ∨
     ((reconcile od t f).2.2 = true ∧ ((reconcile od t f).1 = od ∨ (od = none ∧ (reconcile od t f).1 = some none))) := by
-  cases f <;> cases od <;> simp [reconcile] at hf ⊢
+  cases h : (reconcile od t f).2.2 with
+  | false => exact .inl ⟨rfl, (reconcile_ok od t f h).1⟩
+  | true => exact .inr ⟨rfl, reconcile_err od t f hf h⟩
 
 theorem pass_preserves_fresh (hinj : ∀ a b, hash a = hash b → a = b) (W : Spec → Leaves)
     (F : Faults) (st : Store H T) (hl : late F = false) (hI : FreshInv hash render W st) :
@@ -453,9 +778,6 @@ theorem stale_template_after_lost_status_counterexample :
 
 /-! ## Monitor vs. model (ctrl stream) -/
 
-theorem clause_nil (b : Bool) (n : String) : clause b n = [] ↔ b = false := by
-  cases b <;> simp [clause]
-
 theorem clean_eq (F : Faults) (h : clean F = true) : F = {} := by
   simpa [clean] using h
 
@@ -479,6 +801,32 @@ theorem hash_changes_only_when_processed (L : Leaves) (F : Faults) (st : Store H
       · cases F.odGet2 <;> cases F.status <;> simp
     · split <;> simp
 
+/-- **recorded ⇒ fresh** (one pass, ANY faults and interleavings): a pass that changes the recorded
+spec hash — from then on the spec counts as rolled out and is never rendered again — over an
+admissible package has left the ObjectDeployment template equal to a fresh render of the current
+spec.  In particular after any number of 409 Conflict answers to the ObjectDeployment Update. -/
+theorem recorded_template_fresh (L : Leaves) (F : Faults) (st : Store H T)
+    (h : (pass hash render L F st).store.status.unpackedHash ≠ st.status.unpackedHash)
+    (ha : admissible L = true) :
+    (pass hash render L F st).store.od = some (some (render st.spec)) := by
+  revert h
+  unfold pass
+  cases F.pkgGet <;> simp
+  cases F.odGet0 <;> simp
+  split
+  · split <;> simp
+  · cases F.pull <;> simp
+    · cases F.env <;> simp
+      cases he : (deploy (render st.spec) L F.recon st.status.invalid st.od).err with
+      | true => simp
+      | false =>
+        simp only [Bool.false_eq_true, if_false]
+        split
+        · simp
+        · intro _
+          exact (deploy_nil_template_fresh (render st.spec) L F.recon st.status.invalid st.od ha he).1
+    · split <;> simp
+
 /-- **Monitor vs. model, one pass**: the model's pass satisfies every clause of `checkStep`
 (the `strong` clause under the invariant it needs). -/
 theorem checkStep_model (W : Spec → Leaves) (F : Faults) (st : Store H T) (strong : Bool)
@@ -487,7 +835,7 @@ theorem checkStep_model (W : Spec → Leaves) (F : Faults) (st : Store H T) (str
       (obsOf (pass hash render (W st.spec) F st)) = [] := by
   unfold checkStep
   simp only [List.append_eq_nil_iff, clause_nil, obsOf]
-  refine ⟨⟨⟨⟨⟨⟨⟨?_, ?_⟩, ?_⟩, ?_⟩, ?_⟩, ?_⟩, ?_⟩, ?_⟩
+  refine ⟨⟨⟨⟨⟨⟨⟨⟨?_, ?_⟩, ?_⟩, ?_⟩, ?_⟩, ?_⟩, ?_⟩, ?_⟩, ?_⟩
   · -- invalid-rolled-out
     cases hp : F.pull with
     | true => simp [invalid_no_deployment_change hash render (W st.spec) F st (.inl hp)]
@@ -555,6 +903,12 @@ theorem checkStep_model (W : Spec → Leaves) (F : Faults) (st : Store H T) (str
         · rw [(unchanged_spec_left_alone hash render (W st.spec) {} st hr).1]
           simp [hI st.spec hr ha]
         · simp [(changed_spec_template_eq_fresh_render hash render (W st.spec) st hr ha).1]
+  · -- recorded-but-template-not-fresh
+    by_cases hh : (pass hash render (W st.spec) F st).store.status.unpackedHash = st.status.unpackedHash
+    · simp [hh]
+    · cases ha : admissible (W st.spec) with
+      | false => simp
+      | true => simp [recorded_template_fresh hash render (W st.spec) F st hh ha]
   · -- hash-recorded-without-processing
     by_cases hh : (pass hash render (W st.spec) F st).store.status.unpackedHash = st.status.unpackedHash
     · simp [hh]
